@@ -2,7 +2,7 @@
 import vcheck
 from E2_common import eq
 
-ENTRIES = ['harness_undeclared', 'harness_final', 'harness_types', 'harness_order', 'harness_class_order_an']
+ENTRIES = ['harness_undeclared', 'harness_final', 'harness_types', 'harness_order', 'harness_class_order_an', 'harness_reftypes']
 POS = ['initialiser', 'assignment value', 'echo argument', 'if condition']
 
 
@@ -28,6 +28,15 @@ def queries(tier):
     for a, b in pairs:
         qs.append(aq('types %s <- %s' % (types[a], types[b]), 'harness_types', [a, b],
                      '%s x = <%s literal>: accepted exactly when the types agree or int widens to long' % (types[a], types[b]), tier))
+    tn = ['int', 'Foo', 'Sub']
+    vn = ['<int literal>', 'new Foo()', 'new Bar()', 'new Sub()', 'null']
+    for pos in (0, 1):
+        for dt in range(3):
+            for vt in range(5):
+                ok = vt == 0 if dt == 0 else (vt in (1, 3, 4) if dt == 1 else vt in (3, 4))
+                qs.append(aq('reftypes %s %s <- %s' % ('init' if pos == 0 else 'assign', tn[dt], vn[vt]), 'harness_reftypes', [dt, vt, pos],
+                             'classes Foo, Bar, Sub extends Foo; %s of a %s variable with %s: %s' %
+                             ('initialiser' if pos == 0 else 'assignment', tn[dt], vn[vt], 'accepted' if ok else 'Semantic error'), tier))
     return qs
 
 
@@ -35,9 +44,9 @@ META = dict(
     level_text='bounded symbolic execution of the real SemanticAnalyser::analyse (visitor dispatch, symbol tables, type inference) on small hand-built '
                'programs: the offending construct in each enumerated position is a Semantic error, the twin without it is accepted',
     assumptions=['programs are enumerated (rule instance x position), node positions symbolic; heap and stack zero-initialised; hash = constant'],
-    bounds={'rules': 'use before declaration (4 positions), final local written (3 node kinds), primitive initialiser compatibility (7x7 types)'},
+    bounds={'rules': 'use before declaration (4 positions), final local written (3 node kinds), primitive initialiser compatibility (7x7 types), reference-type compatibility (3 declared types x 5 values x initialiser/assignment)'},
     outside=['every other rule of the list (visibility, void results, static/abstract instantiation, this/super in static context, @quantum/@shots, null, '
-             'final fields in constructors) and the product with arbitrary surrounding programs', 'classes, methods, arrays, generics'],
+             'final fields in constructors) and the product with arbitrary surrounding programs', 'argument and return positions for reference types, methods, arrays, generics'],
 )
 
 
